@@ -29,6 +29,8 @@ type c07Case struct {
 	// KDE only: sample weights and boundaries (0,0 = unbounded)
 	Ws  []float64 `json:"ws,omitempty"`
 	Bnd []mon.F   `json:"bnd,omitempty"`
+	// user-defined DiscreteDist: lattice step (Xs are lattice points)
+	Step float64 `json:"step,omitempty"`
 }
 
 func init() {
@@ -120,6 +122,29 @@ func (d pwDist) inverse(y float64) float64 {
 	return d.xs[n-1]
 }
 
+// pwLattice is a user-defined DiscreteDist: a pure step CDF on the lattice
+// lo + i*step, with PMF and Step methods (so that any path the generic
+// inverse selects for discrete distributions is executed on lattices other
+// than the built-in ones: steps such as 0.1, 3 or 1e-3, offset lower ends).
+type pwLattice struct {
+	pwDist
+	lo, step float64
+}
+
+func (d pwLattice) Step() float64 { return d.step }
+func (d pwLattice) PMF(x float64) float64 {
+	// the mass at the lattice point at or below x
+	i := sort.SearchFloat64s(d.xs, x)
+	if i < len(d.xs) && d.xs[i] == x {
+		return d.v[i] - d.l[i]
+	}
+	if i == 0 {
+		return 0
+	}
+	return d.v[i-1] - d.l[i-1]
+}
+func (d pwLattice) Bounds() (float64, float64) { return d.xs[0], d.xs[len(d.xs)-1] }
+
 // countingDist wraps a built-in distribution to count CDF calls (M-step)
 // while hiding any InvCDF/Rand method of the wrapped value.
 type countingDist struct {
@@ -194,8 +219,20 @@ func c07Judge(w *mon.W, c c07Case) {
 func c07User(w *mon.W, c c07Case) {
 	calls := 0
 	d := pwDist{c.Xs, c.L, c.V, c.BoundIn, &calls}
-	inv := stats.InvCDF(d)
+	var inv func(float64) float64
+	var dist stats.DistCommon = d // the value the library is given
 	name := fmt.Sprintf("piecewise CDF xs=%v l=%v v=%v", c.Xs, c.L, c.V)
+	if c.Step > 0 {
+		w.Hit("user-defined-DiscreteDist")
+		name = fmt.Sprintf("user-defined discrete distribution on %g+i*%g: points %v, CDF values %v", c.Xs[0], c.Step, c.Xs, c.V)
+		dist = pwLattice{d, c.Xs[0], c.Step}
+		if p, e := mon.Call(func() { inv = stats.InvCDF(dist) }); p {
+			w.Violate("panic", fmt.Sprintf("%s: InvCDF panicked: %v", name, e), c)
+			return
+		}
+	} else {
+		inv = stats.InvCDF(d)
+	}
 	type pt struct{ y, x float64 }
 	var pts []pt
 	for _, yf := range c.Ys {
@@ -220,7 +257,7 @@ func c07User(w *mon.W, c c07Case) {
 				w.Violate("NaN-rule", fmt.Sprintf("%s: InvCDF(%g)=%g, want NaN", name, y, x), one)
 			}
 		case y == 0:
-			lo, _ := d.Bounds()
+			lo, _ := dist.Bounds()
 			want := math.Inf(-1)
 			if d.CDF(lo) == 0 {
 				want = lo
@@ -232,7 +269,7 @@ func c07User(w *mon.W, c c07Case) {
 				w.Violate("y=0", fmt.Sprintf("%s: InvCDF(0)=%g, want %g", name, x, want), one)
 			}
 		case y == 1:
-			_, hi := d.Bounds()
+			_, hi := dist.Bounds()
 			want := math.Inf(1)
 			if d.CDF(hi) == 1 {
 				want = hi
@@ -357,6 +394,15 @@ func c07BuiltinInvVia(w *mon.W, c c07Case, base stats.DistCommon, scale float64,
 				if !w.Err("discrete-inverse", math.Abs(x-want), 1e-9*math.Max(math.Abs(want), 1)) {
 					w.Violate("inverse", fmt.Sprintf("%s: InvCDF(%.17g)=%.17g, smallest x with CDF(x)>=y is %g", name, y, x, want), one)
 				}
+			} else if math.IsInf(x, 0) {
+				// an infinite answer for 0<y<1 is right only if the CDF
+				// reaches (does not reach) y beyond the whole finite range
+				w.Hit("infinite-answer-judged")
+				edge := base.CDF(math.Copysign(math.MaxFloat64, x))
+				if (x < 0 && !(edge >= y)) || (x > 0 && !(edge < y)) {
+					w.Violate("inverse-infinite", fmt.Sprintf("%s: InvCDF(%.17g)=%v although CDF(%v)=%.17g", name, y, x, math.Copysign(math.MaxFloat64, x), edge), one)
+				}
+				continue
 			} else {
 				delta := 1e-9 * math.Max(math.Abs(x), scale)
 				noise := 1e-10 * y
@@ -546,6 +592,38 @@ func c07Rand(w *mon.W, c c07Case) {
 			}
 		}
 	}
+	// the documented nil source: draws come from the process-wide source
+	// (not reproducible, so only the distribution is judged, with the same
+	// 1e-9 false-alarm bound)
+	w.Hit("rand-nil-source")
+	const nn = 2000
+	nd := make([]float64, nn)
+	w.EvalN("Rand(nil)", nn)
+	if p, e := mon.Call(func() {
+		for i := range nd {
+			nd[i] = gen(nil)
+		}
+	}); p {
+		w.Violate("rand-nil", fmt.Sprintf("%s: Rand(dist)(nil) panicked: %v (a nil source is documented to mean the default source)", name, e), c)
+	} else {
+		sort.Float64s(nd)
+		ksn := 0.0
+		for i := 0; i < nn; {
+			j := i
+			for j < nn && nd[j] == nd[i] {
+				j++
+			}
+			v := nd[i]
+			d := 1e-9 * math.Max(math.Abs(v), 1e-3)
+			ksn = math.Max(ksn, float64(j)/nn-base.CDF(v+d))
+			ksn = math.Max(ksn, left(v-d)-float64(i)/nn)
+			i = j
+		}
+		epsn := math.Sqrt(math.Log(2/1e-9) / (2 * nn))
+		if !w.Err("rand-nil-KS", ksn, epsn) || math.IsNaN(ksn) {
+			w.Violate("rand-nil-KS", fmt.Sprintf("%s: KS distance %g over %d draws from the default source exceeds the DKW bound %g", name, ksn, nn, epsn), c)
+		}
+	}
 	if w.WantSample() {
 		w.Sample(map[string]any{"dist": name, "draws": N, "ks": ks, "dkw_bound": eps})
 	}
@@ -643,7 +721,7 @@ func c07Ys(rng *mon.Rand, levels []float64) []mon.F {
 func c07Run(r *mon.Run) {
 	r.Rule("user-defined piecewise CDFs (ramps of slope>=5e-4, jumps, flats, pure step functions; centre anywhere in +-1e6; widths 1e-3..1e3) judged against the analytic generalized inverse; built-ins TDist, BinomialDist, HypergeometicDist, UDist, KDE judged through their own CDF; y uniform, at exact jump/kink levels and their neighbours one ulp away, 1e-300, 1-1e-16, 0, 1 and outside [0,1]; dispatch to own InvCDF/Rand methods; Rand: determinism, DKW bound (alpha=1e-9) on seeded draws, a source whose first variate is 0. Non-trivial = hits a class; distinct by hash of the CDF description.")
 	r.Assume("ramp slopes >= 5e-4 keep the float64 crossing within 2e-13 of the analytic one (tolerance 1e-9 relative, floor 1e-12)", "for built-ins the library's own CDF is the oracle (its accuracy is C05/C06/C02/C12's business)")
-	r.Gate("y-at-jump-or-kink-level", "centre>1e5", "centre<-1e5", "discrete-builtin", "scripted-zero-draw", "y-outside", "y=0-bounds-endpoint", "y=0-minus-inf", "y=1-bounds-endpoint", "y=1-plus-inf", "dispatch", "builtin-t", "builtin-binom", "builtin-hyperg", "builtin-udist", "builtin-kde", "rand-user", "rand-builtin", "pure-step", "unwrapped-builtin", "kde-weighted", "kde-bounded", "kde-delta-kernel", "rand-kde-weighted")
+	r.Gate("y-at-jump-or-kink-level", "centre>1e5", "centre<-1e5", "discrete-builtin", "scripted-zero-draw", "y-outside", "y=0-bounds-endpoint", "y=0-minus-inf", "y=1-bounds-endpoint", "y=1-plus-inf", "dispatch", "builtin-t", "builtin-binom", "builtin-hyperg", "builtin-udist", "builtin-kde", "rand-user", "rand-builtin", "pure-step", "unwrapped-builtin", "kde-weighted", "kde-bounded", "kde-delta-kernel", "rand-kde-weighted", "user-defined-DiscreteDist", "rand-nil-source")
 
 	r.Parallel("user", r.Pick(3000, 40000), func(w *mon.W, i int) {
 		rng := w.Rng
@@ -654,11 +732,45 @@ func c07Run(r *mon.Run) {
 		c07Judge(w, c)
 		w.Distinct(mon.NewHasher().Fs(c.Xs).Fs(c.L).Fs(c.V).Sum())
 	})
+	// user-defined discrete distributions on lattices lo + i*step
+	r.Parallel("user-lattice", r.Pick(600, 6000), func(w *mon.W, i int) {
+		rng := w.Rng
+		step := rng.Pick(0.1, 0.2, 0.3, 3, 1e-3, 0.7, 2.5, 1e-6, 1, 0.5, 1e4)
+		lo := rng.Pick(0, -step*float64(rng.Range(1, 9)), step*float64(rng.Range(1, 50)), rng.Uniform(-5, 5), -1e3*step)
+		n := rng.Range(2, 12)
+		c := c07Case{Kind: "user", Step: step}
+		tot := 0.0
+		mass := make([]float64, n)
+		for k := range mass {
+			mass[k] = rng.Uniform(0.05, 1)
+			if rng.Intn(4) == 0 {
+				mass[k] = 0 // a lattice point without mass
+			}
+			tot += mass[k]
+		}
+		if tot == 0 {
+			mass[0], tot = 1, 1
+		}
+		cum := 0.0
+		for k := 0; k < n; k++ {
+			c.Xs = append(c.Xs, lo+float64(k)*step)
+			c.L = append(c.L, cum)
+			cum += mass[k] / tot
+			if k == n-1 || cum > 1 {
+				cum = 1
+			}
+			c.V = append(c.V, cum)
+		}
+		c.BoundIn = false
+		c.Ys = c07Ys(rng, c.V)
+		c07Judge(w, c)
+		w.Distinct(mon.NewHasher().S("lattice").F(step).Fs(c.Xs).Fs(c.V).Sum())
+	})
 	builtin := func(rng *mon.Rand, k int) c07Case {
 		c := c07Case{}
 		switch k % 5 {
 		case 0:
-			c.Kind, c.Params = "t", []float64{rng.LogUniform(0.5, 1e3)}
+			c.Kind, c.Params = "t", []float64{rng.Pick(rng.LogUniform(0.5, 1e3), rng.LogUniform(0.1, 0.5), rng.LogUniform(0.5, 1e3))}
 		case 1:
 			c.Kind, c.Params = "binom", []float64{float64(rng.Range(1, 60)), rng.Pick(rng.Float64(), 0.5, 0.01, 0.99)}
 		case 2:
